@@ -3,6 +3,7 @@ package main
 import (
 	"syscall"
 
+	"github.com/criyle/go-sandbox/ptracer"
 	"github.com/criyle/go-sandbox/runner"
 	"golang.org/x/sys/unix"
 )
@@ -33,6 +34,9 @@ func init() {
 		"unix.PTRACE_EVENT_VFORK":          uint64(unix.PTRACE_EVENT_VFORK),
 		"unix.PTRACE_EVENT_FORK":           uint64(unix.PTRACE_EVENT_FORK),
 		"unix.PTRACE_EVENT_EXEC":           uint64(unix.PTRACE_EVENT_EXEC),
+		"TraceAllow":                       uint64(ptracer.TraceAllow),
+		"TraceBan":                         uint64(ptracer.TraceBan),
+		"TraceKill":                        uint64(ptracer.TraceKill),
 	} {
 		constTable[k] = v
 	}
